@@ -29,6 +29,7 @@ var checks = map[string]func(*ev.Ctx){
 	"C16": props.C16,
 	"C17": props.C17,
 	"C18": props.C18,
+	"C19": props.C19,
 	"C20": props.C20,
 }
 
